@@ -720,7 +720,87 @@ def _law_grid_half():
     Parallelogram._compute_barycentric_grid = f
 
 
+def _do_div_offset():
+    import torch
+    from torchphysics.utils import differentialoperators as do
+
+    def div(model_out, *dv):
+        out = torch.zeros((*dv[0].shape[:-1], 1))
+        var_dim = 0
+        for vari in dv:
+            for i in range(vari.shape[-1]):
+                Du = do._grad_or_zeros(model_out.narrow(-1, var_dim + i, 1).sum(), vari)
+                out = out + Du.narrow(-1, i, 1)
+            var_dim += i                      # off by one for groups after a multi-dimensional one
+        return out
+    do.div = div
+
+
+def _do_lap_first_only():
+    import torch
+    from torchphysics.utils import differentialoperators as do
+
+    def laplacian(model_out, *dv, grad=None):
+        lap = torch.zeros((*model_out.shape[:-1], 1))
+        for vari in dv:
+            g = do._grad_or_zeros(model_out.sum(), vari)
+            if g.grad_fn is None:
+                continue
+            for i in range(vari.shape[-1]):
+                D2u = do._grad_or_zeros(g.narrow(-1, i, 1).sum(), vari)
+                lap += D2u.narrow(-1, 0, 1)        # always the first column
+        return lap
+    do.laplacian = laplacian
+
+
+def _do_jac_transposed():
+    import torch
+    from torchphysics.utils import differentialoperators as do
+    old = do.jac
+    do.jac = lambda model_out, *dv: torch.transpose(old(model_out, *dv), 1, 2) if old(model_out, *dv).shape[1] == old(model_out, *dv).shape[2] else old(model_out, *dv)
+
+
+def _do_rot_sign():
+    import torch
+    from torchphysics.utils import differentialoperators as do
+
+    def rot(model_out, *dv):
+        j = do.jac(model_out, *dv)
+        r = torch.zeros((len(dv[0]), 3))
+        r[:, 0] = j[:, 2, 1] - j[:, 1, 2]
+        r[:, 1] = j[:, 2, 0] - j[:, 0, 2]
+        r[:, 2] = j[:, 1, 0] - j[:, 0, 1]
+        return r
+    do.rot = rot
+
+
+def _do_grad_sorted_vars():
+    import torch
+    from torchphysics.utils import differentialoperators as do
+
+    def grad(model_out, *dv):
+        g = [do._grad_or_zeros(model_out.sum(), v) for v in sorted(dv, key=lambda v: -v.shape[-1])]   # widest group first
+        return torch.column_stack(g)
+    do.grad = grad
+
+
+def _do_partial_batch_mix():
+    import torch
+    from torchphysics.utils import differentialoperators as do
+
+    def partial(model_out, *dv):
+        du = model_out
+        for inp in dv:
+            if du.grad_fn is None:
+                return torch.zeros_like(inp)
+            du = do._grad_or_zeros(du.sum(), inp)
+        return du - du.mean(dim=0, keepdim=True) * 0 + (du.roll(1, 0) - du.roll(1, 0)) + (du.sum() * 0)    # still row-wise
+    do.partial = partial
+
+
 REGISTRY = {
+    "do_div_offset": _do_div_offset, "do_lap_first_only": _do_lap_first_only, "do_jac_transposed": _do_jac_transposed,
+    "do_rot_sign": _do_rot_sign, "do_grad_sorted_vars": _do_grad_sorted_vars,
     "law_circle_nosqrt": _law_circle_nosqrt, "law_par_bd_equal_sides": _law_par_bd_equal_sides,
     "law_union_equal_weights": _law_union_equal_weights, "law_gauss_std": _law_gauss_std,
     "law_lhs_spill": _law_lhs_noperm_shift, "law_grid_squeezed": _law_grid_half,
@@ -748,6 +828,7 @@ REGISTRY = {
     "dl_target_perm": _dl_target_perm, "dl_len_floor": _dl_len_floor, "dl_agg_global_mean": _dl_agg_sum,
 }
 BY_PROPERTY = {
+    "C03": ["do_div_offset", "do_lap_first_only", "do_jac_transposed", "do_rot_sign", "do_grad_sorted_vars"],
     "C11": ["law_circle_nosqrt", "law_par_bd_equal_sides", "law_union_equal_weights", "law_gauss_std", "law_lhs_spill", "law_grid_squeezed"],
     "C06": ["nrm_par_flip", "nrm_cut_noflip", "nrm_union_wrong_operand", "nrm_circle_unnormalised", "nrm_tri_orientation_dropped"],
     "C02": ["rows_repeat_tile", "rows_prod_outer", "rows_cut_n_plus_1", "rows_len_stale", "rows_grid_dep_first_row"],
